@@ -62,7 +62,8 @@ ValCall(z, val) ==
       o  == IF Focus = "c01" \/ Flip(z, 30) THEN o0 ELSE PlainOpts
   IN [op |-> op, id |-> "", msg |-> Body(z), o |-> o, mask |-> R(ReadMasks), inc |-> NoInc]
 
-Sub(z) == [updatesOnly |-> Flip(z, 30), mask |-> R(ReadMasks \ {Mask(<<<<"f">>, <<"i">>>>)}),
+Sub(z) == [pid |-> IF Focus = "c04" /\ Flip(z, 35) THEN R({"a", "b", "g2"}) ELSE "",
+           updatesOnly |-> Flip(z, 30), mask |-> R(ReadMasks \ {Mask(<<<<"f">>, <<"i">>>>)}),
            inc |-> IF Focus = "c08" THEN (IF Flip(z, 50) THEN RandInc(z) ELSE ValueInc(z))
                    ELSE IF Focus = "c04" THEN NoInc ELSE (IF Flip(z, 70) THEN NoInc ELSE RandInc(z))]
 
